@@ -69,6 +69,10 @@ def part_single(ctx, helper, root):
     g = [s for s in flowgrid.grid(kp_reuse_values=(False,), pair_values=(False, True))]
     ctx.rng.shuffle(g)
     g = g[:(40 if ctx.quick() else 1500)]
+    # redirections, always: the directory GET behind a chain (followed, the attempt goes on), 3xx answers to POSTs
+    # (the attempt ends, with a failure report)
+    g += [s for s in flowgrid.grid(kp_reuse_values=(False,), pair_values=(False,)) if s["fault"].startswith("redirect-")
+          and s["pos"][0] in ("directory", "newAccount", "challenge", "cert") and s["pos"][1] == 0 and s not in g]
     scs = [dict(s, idx=i) for i, s in enumerate(g)]
     # every other scenario with an installed (already due) pair runs with a non-default random_early_renew
     for s in scs:
